@@ -657,7 +657,7 @@ async def _timer(
         # For idle-only no-interval timers, wait till the next change (i.e. idling reset).
         # NB: This will skip the handler in the same tact (1/64th of a second) even if changed.
         elif handler.idle is not None:
-            while memory.idle_reset_time <= started:
+            while memory.idle_reset_time <= started and not stopper.is_set():
                 await aiotime.sleep(handler.idle, wakeup=stopper.async_event)
 
         # Only in case there are no intervals and idling, treat it as a one-shot handler.
